@@ -90,10 +90,29 @@ def seeded():
     return "\n".join(out) + "\n"
 
 
+def benign():
+    out = ["### 5.1 Behaviour-preserving changes (false-alarm testing)\n",
+           "Refactors, optimisations and robustness tweaks inside the anchored mechanisms, written by fresh sub-agents, each passing qibo's",
+           "suite and its own equivalence script (`benign/<id>/`), run through the checks of the properties concerned with `tools/benigntest.py`.",
+           "`failing inputs` counts VIOLATION lines with a concrete replay (a false alarm); `drift` counts `no-failing-input-found` reports.\n",
+           "| id | change | checks run | failing inputs | drift |", "|---|---|---|---|---|"]
+    for d in sorted((V / "benign").iterdir()) if (V / "benign").exists() else []:
+        if not (d / "meta.json").exists():
+            continue
+        m = json.loads((d / "meta.json").read_text())
+        r = json.loads((d / "result.json").read_text()) if (d / "result.json").exists() and (d / "result.json").stat().st_size else {}
+        ch = r.get("checks", {})
+        fa = sum(len(v.get("false_alarms", [])) for v in ch.values())
+        dr = sum(len(v.get("model_drift", [])) for v in ch.values())
+        summ = str(m.get("summary", "")).replace("|", "/").replace("\n", " ")
+        out.append(f"| {d.name} | {summ[:240]} | {', '.join(ch) or 'pending'} | {fa} | {dr} |")
+    return "\n".join(out) + "\n"
+
+
 def main():
     head = (V / "docs" / "design_head.md").read_text()
     tail = (V / "docs" / "design_tail.md").read_text() if (V / "docs" / "design_tail.md").exists() else ""
-    (V / "DESIGN.md").write_text(head + "\n" + per_property() + "\n" + defects() + "\n" + seeded() + "\n" + tail)
+    (V / "DESIGN.md").write_text(head + "\n" + per_property() + "\n" + defects() + "\n" + seeded() + "\n" + benign() + "\n" + tail)
     print("DESIGN.md written")
 
 
